@@ -7,6 +7,7 @@ WHAT = {"P07-begin-not-refused": "begin for an open token / at the maximum was n
         "P07-begin-ok-without-successful-reservation": "begin succeeded without exactly one completed reservation carrying a receipt number",
         "P07-unknown-token-accepted": "commit/cancel for a token that is not open was not refused with UnknownToken",
         "P07-wrong-receipt": "commit/cancel did not act on the receipt number the terminal issued for that token's reservation",
+        "P07-issued-receipt-not-recorded": "begin failed although the terminal completed the reservation and reported its receipt number: the receipt is not recorded",
         "P07-open-token-refused": "commit/cancel for an open token was refused as unknown"}
 
 
